@@ -28,6 +28,7 @@ type Explorer struct {
 	rootPoints int
 }
 
+//go:norace
 func (e *Explorer) run(prefix []int) *Execution {
 	cfg := e.Cfg
 	cfg.Prefix = prefix
@@ -42,6 +43,7 @@ func (e *Explorer) run(prefix []int) *Execution {
 	return x
 }
 
+//go:norace
 func costBefore(x *Execution, i int) int {
 	c := 0
 	for k := 0; k < i; k++ {
@@ -52,6 +54,8 @@ func costBefore(x *Execution, i int) int {
 
 // Run explores. It first executes the default schedule twice and compares the
 // recorded choice points (determinism self-check).
+//
+//go:norace
 func (e *Explorer) Run() {
 	if e.NShards == 0 {
 		e.NShards = 1
@@ -89,6 +93,7 @@ func (e *Explorer) Run() {
 	}
 }
 
+//go:norace
 func (e *Explorer) explore(prefix []int) {
 	if e.Err != nil || e.Capped {
 		return
@@ -120,6 +125,8 @@ func (e *Explorer) explore(prefix []int) {
 }
 
 // Replay runs one recorded schedule with tracing on.
+//
+//go:norace
 func Replay(cfg Config, schedule []int, body func()) *Execution {
 	cfg.Prefix = schedule
 	cfg.Trace = true
